@@ -164,8 +164,10 @@ func genC05Row(rng *rand.Rand) Row {
 		}
 	}
 	s := []Atom{}
-	if rng.Intn(2) == 0 {
-		s = append(s, AS("e"))
+	for _, i := range rng.Perm(3) {
+		if rng.Intn(2) == 0 {
+			s = append(s, AS([]string{"e", "f", "g"}[i]))
+		}
 	}
 	return Row{
 		"name": VA(AS(names[rng.Intn(len(names))])),
